@@ -108,3 +108,60 @@ def numeric_V(spec, theta):
     ref = RefModel(spec)
     x = [1.0] * len(spec["states"])
     return ref, ref.num("vMat")(x, 0.0, theta)
+
+
+def steplog_grammar(log):
+    """The documented fall-back/stop rule over the step log of one run: a rejected single reaction ends the run; a failed
+    tau-leap is followed by a single-reaction attempt."""
+    bad = []
+    kinds = [s for s in log if s.get("k") in ("first", "tau")]
+    for i, s in enumerate(kinds):
+        if s["k"] == "first" and s.get("success") is False and i != len(kinds) - 1:
+            bad.append({"what": "the run continued after a single reaction was rejected / no event could fire", "position": i, "of": len(kinds)})
+            break
+        if s["k"] == "tau" and s.get("success") is False:
+            if i == len(kinds) - 1 or kinds[i + 1]["k"] != "first":
+                bad.append({"what": "a failed tau-leap step was not followed by a single-reaction attempt", "position": i, "of": len(kinds)})
+                break
+    return bad
+
+
+def run_config(m, spec, V, x0, horizon, cfg, hostile=None, closed=False, grid=None, check_limits=True):
+    """Run solve_stochast under the probes for one configuration and check every path.
+    cfg: {exact, n, seed, pre_tau, epsilon}.  Returns dict(witnesses, counters, stats list, inconclusive, paths, out)."""
+    from verifkit.mon.probes import MonitorViolation, SimProbe, StepCap
+    from verifkit.common import short_exc, tb_tail
+    m.pre_tau = cfg.get("pre_tau")
+    m._epsilon = cfg["epsilon"] if cfg.get("epsilon") is not None else 0.03
+    np.random.seed(cfg["seed"])
+    probe = SimProbe(hostile=hostile, conserve_sum=closed, limits=spec["limits"] if check_limits else None)
+    res = {"witnesses": [], "counters": probe.counters, "stats": [], "inconclusive": None, "probe": probe, "out": None}
+    t_arg = horizon if grid is None else grid
+    if grid is not None:
+        horizon = float(np.asarray(grid, dtype=float)[-1])
+    try:
+        with probe, contextlib.redirect_stdout(io.StringIO()):
+            out = m.solve_stochast(t_arg, cfg["n"], exact=cfg["exact"], full_output=True)
+    except StepCap:
+        res["inconclusive"] = "monitor-step-cap"
+        return res
+    except MonitorViolation as e:
+        res["witnesses"].append(dict({"what": e.what, "config": cfg}, **e.detail))
+        return res
+    except Exception as e:
+        res["witnesses"].append({"what": "solve_stochast raised on a model inside the quantifier", "config": cfg,
+                                 "error": short_exc(e), "tb": tb_tail(e)})
+        return res
+    res["out"] = out
+    if len(probe.paths) != cfg["n"]:
+        res["witnesses"].append({"what": "number of simulated paths differs from the iteration count", "jump_runs": len(probe.paths), "config": cfg})
+        return res
+    for i in range(cfg["n"]):
+        bad, st = check_path(probe.paths[i], x0, 0.0, V, cfg["exact"], horizon=horizon,
+                             limits=spec["limits"] if check_limits else None, closed=closed, steplog=probe.steplog[i])
+        bad += steplog_grammar(probe.steplog[i])
+        for b in bad:
+            b["config"] = cfg
+        res["witnesses"].extend(bad[:3])
+        res["stats"].append(st)
+    return res
